@@ -121,6 +121,10 @@ Context *Context::getParent() const {
     return parent;
 }
 
+void Context::setParent(Context *newParent) {
+    parent = newParent;
+}
+
 Context *Context::getGlobalContext() {
     Context *ctx = this;
     while (ctx->parent != nullptr) {ctx = ctx->parent;}
